@@ -1223,7 +1223,26 @@ def do_supplied_table_case(req):
         p = TracesParser(moved, {}, {})
         mv = [str(r) for r in (p.feed(_mk_kevent(0x7ff0000, 7, q, (0, 42, 0, 0), ts=q)) for q in (1, 2)) if r is not None]
         none = run({})
-        if third != exp_third:
+        lk = inv['VFS_LOOKUP']
+        alias_lk = dict(codes)
+        alias_lk[0x3ff0000] = 'VFS_LOOKUP'
+        import struct
+        pl = TracesParser(alias_lk, {}, {})
+        texts = []
+        for ev in (_mk_kevent(inv['BSC_access'], 7, 1, (0, 0, 0, 0), ts=1),
+                   _ev_raw(lk, 7, 3, struct.pack('<Q', 77) + b'/first'.ljust(24, b'\0'), ts=2),
+                   _mk_kevent(inv['BSC_access'], 7, 2, (0, 0, 0, 0), ts=3),
+                   _mk_kevent(inv['BSC_access'], 7, 1, (0, 0, 0, 0), ts=4),
+                   _ev_raw(0x3ff0000, 7, 3, struct.pack('<Q', 78) + b'/second'.ljust(24, b'\0'), ts=5),
+                   _mk_kevent(inv['BSC_access'], 7, 2, (0, 0, 0, 0), ts=6)):
+            r = pl.feed(ev)
+            if r is not None:
+                texts.append(str(r))
+        if not viol and (not any('"/first"' in t and 'access' in t for t in texts) or not any('"/second"' in t and 'access' in t for t in texts)):
+            viol, what = True, 'under a table that gives the name VFS_LOOKUP to two ids, lookups recorded under either id must reach the enclosing call: %r' % (texts,)
+        if viol:
+            pass
+        elif third != exp_third:
             viol, what = True, 'under a table that gives the name %s to two ids the two calls decode to %r, expected %r' % (codes[a], third, exp_third)
         elif mv != first[:1]:
             viol, what = True, 'under a table that moves %s to the id 0x7ff0000 the call on that id decodes to %r, expected %r' % (codes[a], mv, first[:1])
@@ -1455,6 +1474,19 @@ def do_interleaving_case(req):
         b = run(req['order_b'])
     except BaseException as ex:  # noqa
         return {'violates': True, 'what': 'feed raised %s: %s' % (type(ex).__name__, ex)}
+    # the names a thread's data + name records declare are learned whatever else happens in between
+    want = {}
+    for t, prog in progs.items():
+        pending = {}
+        for name, q, vals, text in prog:
+            if name in ('TRACE_DATA_NEWTHREAD', 'TRACE_DATA_EXEC') and vals is not None:
+                pending[name.split('_')[-1]] = vals[1] if name.endswith('NEWTHREAD') else vals[0]
+            elif name in ('TRACE_STRING_NEWTHREAD', 'TRACE_STRING_EXEC') and name.split('_')[-1] in pending and text is not None:
+                want[pending[name.split('_')[-1]]] = text
+    for label, (per, names) in (('sequential', a), ('interleaved', b)):
+        miss = {k: v for k, v in want.items() if names.get(k) != v}
+        if miss and len(want) == len(set(want)):
+            return {'violates': True, 'what': 'in the %s order the process names learned are %r; the data and name records of the threads declare %r' % (label, names, want)}
     viol = a != b
     return {'violates': viol, 'a': repr(a)[:600], 'b': repr(b)[:600],
             'what': 'two interleavings of the same per-thread programs give different per-thread results / learned names: %r vs %r' % (a, b) if viol else ''}
